@@ -52,7 +52,8 @@ REQUIRED = ["roundtrips", "src_text", "src_bytes", "src_path", "offset_0", "offs
             "rounding_tie_values", "comments_compared", "audit_file_opens", "rewrites_same_object",
             "trees_with_int64_ids", "same_path_rewritten_then_read",
             "rejected_reads_before_roundtrip", "loaded_trees_saved_again", "size_sweep_cases", "src_path_other_spellings",
-            "eswc_roundtrips", "line_generators_interleaved",
+            "eswc_roundtrips", "line_generators_interleaved", "src_text_stream_with_its_own_encoding",
+            "roundtrips_under_custom_column_names",
             "tap_to_swc", "tap_parse_swc", "tap_reset_index_"]
 FLOOR = {"quick": 500, "thorough": 40000}
 SHARDS = {"quick": 8, "thorough": 16}
@@ -248,7 +249,22 @@ def _exec(ctx, case, tmp):
                                          f"not have returned instead of raising", case)
                 except Exception:
                     ctx.count("rejected_reads_before_roundtrip")
-            if kind == "text":
+            if kind == "wrapped":
+                # an open text stream that decodes its own bytes (a file opened in another encoding,
+                # a decompressing reader): the library reads the text it hands out
+                enc = ["latin-1", "cp1252", "utf-16", "utf-32"][(case["vseed"] + w_i) % 4]
+                try:
+                    raw = text.encode(enc)
+                except UnicodeEncodeError:
+                    enc, raw = "utf-16", text.encode("utf-16")
+
+                def wrapped():
+                    return io.TextIOWrapper(io.BytesIO(raw), encoding=enc)
+
+                t2 = Tree.from_swc(wrapped())
+                df, cm = su.read_swc(wrapped())
+                ctx.count("src_text_stream_with_its_own_encoding")
+            elif kind == "text":
                 t2 = Tree.from_swc(io.StringIO(text))
                 df, cm = su.read_swc(io.StringIO(text))
                 ctx.count("src_text")
@@ -353,6 +369,18 @@ def _exec(ctx, case, tmp):
             if not np.array_equal(tree.ndata[k], v) or tree.ndata[k].dtype != v.dtype:
                 return ctx.violation("writer-mutates-tree", f"{what}: writing changed the tree's "
                                                             f"own column {k!r}", case)
+    if case["vseed"] % 5 == 0 and n <= 400:
+        # the same tree held under custom column names (`names=`), written and read with them
+        def rt(t_):
+            a_ = Tree.from_swc(io.StringIO(t_.to_swc()), names=t_.names)
+            b_ = Tree.from_swc(io.BytesIO(t_.to_swc(source=False).encode()), names=t_.names,
+                               sort_nodes=True)
+            return [a_, b_, list(a_.comments)]
+
+        r = G.same_under_renaming(rt, tree, level=case["vseed"] // 5 % 2)
+        ctx.count("roundtrips_under_custom_column_names")
+        if r:
+            return ctx.violation("custom-column-names", f"round trip: {r}", case)
     if case.get("interleave"):
         # the writer's line generator (swc_utils.to_swc) of this tree and of a second tree consumed
         # in turns, and a complete write of a third tree in the middle of them: each text is what
@@ -414,7 +442,7 @@ def run(ctx):
             for _ in range(int(rng.choice([1, 1, 2, 3, 4]))):
                 writes.append({
                     "offset": int(OFFSETS[int(rng.integers(0, len(OFFSETS)))]),
-                    "kind": str(rng.choice(["text", "bytes", "path"])),
+                    "kind": str(rng.choice(["text", "bytes", "path", "wrapped"])),
                     "source": [None, None, True, False, "custom src"][int(rng.integers(0, 5))],
                     "comments": [None, None, True, False][int(rng.integers(0, 4))],
                 })
